@@ -8,8 +8,11 @@
 // (zz_verif_topic_test.go, whose vScn / op / emitStore / emitCache / vWaitQuiet / vNewSession are reused);
 // the model runner harness/runner/r_c01a.ml prints the same blocks from coq/Sys/TopicAttC01.v.
 //
-// New request (tools/props/c01att.py):
+// New requests (tools/props/c01att.py):
 //   op <N|Fk|Ck> puba <sess> <content> <noecho> <atts>
+//   op <N|Fk|Ck> getdescp <sess>        {get what=desc}, answered frames rendered in both wire encodings
+// The frames answering these two requests that show a message number carry pbseq=<n>: the number in the
+// protobuf encoding of the same frame (what a gRPC client reads), next to seq=<n> of the JSON encoding.
 // <atts>: one letter per listed URL: j = a URL that names no file id (foreign directory / no id in the name),
 //         u = a well-formed file URL whose id has no upload record, k = the URL of an uploaded file
 //         (the upload record is created by the driver before the fault is armed).
@@ -85,10 +88,29 @@ func c01aURLs(sc *vScn, user types.Uid, atts string) []string {
 	return urls
 }
 
-// the new request: same prologue / epilogue as vScn.op
+// a frame that shows a message number ({data}, {meta desc}, the 202 of a {pub}) is rendered with the number a gRPC
+// client reads off the protobuf encoding of the same frame (pbServSerialize) next to the JSON one: pbseq=<n>
+func c01aFrame(sc *vScn, m *ServerComMessage) string {
+	res := sc.frame(m)
+	switch {
+	case m.Data != nil:
+		res += " pbseq=" + strconv.Itoa(int(pbServSerialize(m).GetData().GetSeqId()))
+	case m.Meta != nil && m.Meta.Desc != nil:
+		res += " pbseq=" + strconv.Itoa(int(pbServSerialize(m).GetMeta().GetDesc().GetSeqId()))
+	case m.Ctrl != nil && m.Ctrl.Code == 202 && strings.Contains(res, " seq="):
+		if v, ok := pbServSerialize(m).GetCtrl().GetParams()["seq"]; ok {
+			res += " pbseq=" + string(v)
+		} else {
+			res += " pbseq=absent"
+		}
+	}
+	return res
+}
+
+// the new requests: same prologue / epilogue as vScn.op
 func c01aOp(sc *vScn, w []string) {
 	flt, kind, a := w[0], w[1], w[2:]
-	if kind != "puba" {
+	if kind != "puba" && kind != "getdescp" {
 		sc.op(w)
 		return
 	}
@@ -99,15 +121,20 @@ func c01aOp(sc *vScn, w []string) {
 	tn := sc.topic
 	id := fmt.Sprintf("%d", sc.opi)
 	si, _ := strconv.Atoi(a[0])
-	ne := ""
-	if a[2] == "1" {
-		ne = `,"noecho":true`
+	var req string
+	if kind == "getdescp" {
+		req = `{"get":{"id":"` + id + `","topic":"` + tn + `","what":"desc"}}`
+	} else {
+		ne := ""
+		if a[2] == "1" {
+			ne = `,"noecho":true`
+		}
+		extra := ""
+		if a[3] != "-" {
+			extra = `,"extra":{"attachments":` + vJSON(c01aURLs(sc, sc.uids[sc.sessUser[si]], a[3])) + `}`
+		}
+		req = `{"pub":{"id":"` + id + `","topic":"` + tn + `","content":` + a[1] + ne + `}` + extra + `}`
 	}
-	extra := ""
-	if a[3] != "-" {
-		extra = `,"extra":{"attachments":` + vJSON(c01aURLs(sc, sc.uids[sc.sessUser[si]], a[3])) + `}`
-	}
-	req := `{"pub":{"id":"` + id + `","topic":"` + tn + `","content":` + a[1] + ne + `}` + extra + `}`
 	memverif.ResetCallLog()
 	if flt != "N" {
 		k, _ := strconv.Atoi(flt[1:])
@@ -123,7 +150,7 @@ func c01aOp(sc *vScn, w []string) {
 	sort.Ints(idxs)
 	for _, i := range idxs {
 		for _, m := range sc.sess[i].take() {
-			fmt.Fprintf(sc.out, "S%d %s\n", i, sc.frame(m))
+			fmt.Fprintf(sc.out, "S%d %s\n", i, c01aFrame(sc, m))
 		}
 	}
 	calls := memverif.CallLog()
